@@ -21,8 +21,9 @@ import (
 func init() { register("C07", checkC07) }
 
 type c07Op struct {
-	kind  string // borrow | useR | useW | read | write
+	kind  string // borrow | copy | useR | useW | read | write
 	ref   int
+	src   int // copy: the reference variable the new reference is initialised from
 	place int
 	mut   bool
 	val   int64
@@ -60,8 +61,9 @@ func c07Overlap(p, q int) int {
 }
 
 type c07Prog struct {
-	items []c07Item
-	nref  int
+	items  []c07Item
+	nref   int
+	copies int
 }
 
 func c07Gen(rng *rand.Rand) c07Prog {
@@ -69,6 +71,7 @@ func c07Gen(rng *rand.Rand) c07Prog {
 	type refInfo struct {
 		mut   bool
 		scope int // nest id where declared (0 = top)
+		place int
 	}
 	var refs []refInfo
 	nestID := 0
@@ -82,10 +85,17 @@ func c07Gen(rng *rand.Rand) c07Prog {
 		}
 		k := rng.IntN(10)
 		switch {
+		case k < 3 && len(refs) < 3 && len(usable) > 0 && rng.IntN(3) == 0:
+			// a reference initialised from another reference variable: `let r2: &T = r1;`
+			src := usable[rng.IntN(len(usable))]
+			refs = append(refs, refInfo{refs[src].mut, scope, refs[src].place})
+			pr.copies++
+			return &c07Op{kind: "copy", ref: len(refs) - 1, src: src, place: refs[src].place, mut: refs[src].mut}
 		case k < 3 && len(refs) < 3:
 			mut := rng.IntN(2) == 0
-			refs = append(refs, refInfo{mut, scope})
-			return &c07Op{kind: "borrow", ref: len(refs) - 1, place: rng.IntN(len(c07Places)), mut: mut}
+			pl := rng.IntN(len(c07Places))
+			refs = append(refs, refInfo{mut, scope, pl})
+			return &c07Op{kind: "borrow", ref: len(refs) - 1, place: pl, mut: mut}
 		case k < 6 && len(usable) > 0:
 			r := usable[rng.IntN(len(usable))]
 			if refs[r].mut && rng.IntN(2) == 0 {
@@ -144,15 +154,15 @@ func (p *c07Prog) classify() (string, string) {
 	}
 	loans := map[int]loan{}
 	for i, o := range ops {
-		if o.kind == "borrow" {
+		if o.kind == "borrow" || o.kind == "copy" {
 			loans[o.ref] = loan{o.place, i, o.mut, o.nest}
 		}
 	}
 	uses := func(r int) []int {
 		var u []int
 		for i, o := range ops {
-			if (o.kind == "useR" || o.kind == "useW") && o.ref == r {
-				u = append(u, i)
+			if (o.kind == "useR" || o.kind == "useW") && o.ref == r || o.kind == "copy" && o.src == r {
+				u = append(u, i) // initialising another reference from r reads r
 			}
 		}
 		return u
@@ -192,13 +202,16 @@ func (p *c07Prog) classify() (string, string) {
 			acc = o.place
 		case "write":
 			acc, write = o.place, true
-		case "borrow":
+		case "borrow", "copy":
+			// a copy is another loan of the same place with the same mutability: a shared copy is
+			// compatible with its shared source, a mutable copy conflicts with a mutable source
+			// that is used later
 			acc, write = o.place, o.mut // a mutable borrow needs exclusive access
 		default:
 			continue
 		}
 		for r, l := range loans {
-			if l.created >= i || o.kind == "borrow" && o.ref == r {
+			if l.created >= i || (o.kind == "borrow" || o.kind == "copy") && o.ref == r {
 				continue
 			}
 			if l.scope != 0 && l.scope != o.nest {
@@ -223,6 +236,13 @@ func (p *c07Prog) classify() (string, string) {
 			}
 			if stillUsedCoarse(r, i) && verdict == "accept" {
 				verdict, why = "may", desc+"is dead by program order but alive by statement granularity"
+			}
+		}
+	}
+	if verdict == "accept" {
+		for _, o := range ops {
+			if o.kind == "copy" && o.mut {
+				return "may", "a mutable reference is copied (the implementation may refuse the second mutable loan even when the first is dead)"
 			}
 		}
 	}
@@ -265,6 +285,10 @@ func (p *c07Prog) program() *gen.Program {
 			rt := &gen.Type{K: gen.KRef, Elem: I32, Mut: o.mut}
 			refT[o.ref] = rt
 			return []gen.Stmt{&gen.Let{Name: fmt.Sprintf("r%d", o.ref), T: rt, Init: &gen.Borrow{Mut: o.mut, X: placeExpr(o.place)}, Annot: true}}
+		case "copy":
+			rt := &gen.Type{K: gen.KRef, Elem: I32, Mut: o.mut}
+			refT[o.ref] = rt
+			return []gen.Stmt{&gen.Let{Name: fmt.Sprintf("r%d", o.ref), T: rt, Init: &gen.Var{Name: fmt.Sprintf("r%d", o.src), T: refT[o.src]}, Annot: true}}
 		case "useR":
 			return []gen.Stmt{&gen.Print{X: &gen.Var{Name: fmt.Sprintf("r%d", o.ref), T: refT[o.ref]}}}
 		case "useW":
@@ -347,7 +371,7 @@ func (p *c07Prog) program() *gen.Program {
 
 func checkC07(c *Ctx) error {
 	r := c.R
-	r.Rule = "random event sequences of 3-10 events over places {x, y, p.A, p.B, a[0], a[1]} and up to 3 references: shared/mutable borrow, read/write through the reference, read/write of the place, at top level or inside one block / if / else / else-if arm / trailing else / match arm / match default / while / for; classified by the loan model (MUST_REJECT: conflicting access while the reference is used later in program order or in the same loop; MUST_ACCEPT: no conflict even when loans last to the end of the statement containing their last mention, no array elements involved; MAY otherwise); plus fixed cases for returning a reference to a local / to a parameter and pinned probes for derived references. MUST_REJECT accepted and MUST_ACCEPT rejected are violations; every accepted program is run natively and compared with the interpreter. non-trivial = a distinct sequence whose verdict matched the model (and whose output matched when accepted)"
+	r.Rule = "random event sequences of 3-10 events over places {x, y, p.A, p.B, a[0], a[1]} and up to 3 references: shared/mutable borrow, a reference initialised from another reference variable, read/write through the reference, read/write of the place, at top level or inside one block / if / else / else-if arm / trailing else / match arm / match default / while / for; classified by the loan model (MUST_REJECT: conflicting access while the reference is used later in program order or in the same loop; MUST_ACCEPT: no conflict even when loans last to the end of the statement containing their last mention, no array elements involved; MAY otherwise); plus fixed cases for returning a reference to a local / to a parameter and pinned probes for derived references. MUST_REJECT accepted and MUST_ACCEPT rejected are violations; every accepted program is run natively and compared with the interpreter. non-trivial = a distinct sequence whose verdict matched the model (and whose output matched when accepted)"
 	r.Assumptions = []string{"distinct elements of one array are MAY (the implementation treats index borrows conservatively)", "a loan expires after the last mention of its reference variable"}
 	n := c.N(300, 8000)
 	type cse struct {
